@@ -30,6 +30,7 @@ RULE = (
     "sets/lists/dicts are mutated too. Non-trivial: the call returned a Circuit and the edit script "
     "changed it. Distinct by digest."
 )
+RULE += ' Added after seeded-change rounds 4-5: edits through the public API (fill_blackbox with a matching child, add_blackbox, remove, set_output) besides raw graph edits; influence(supergates=True) at any node.'
 ASSUMPTIONS = [
     "snapshot function cgv.refsim.snapshot",
     "BlackBox objects are intentionally shared between circuits; only the registry dict must not be shared",
